@@ -707,6 +707,20 @@ def rule_every_chunk_serialised(ctx):
         or any(c.func.attr == "write_table" for c in calls_)
     single = any(isinstance(s_, ast.Subscript) and isinstance(s_.slice, ast.Constant) and s_.slice.value == 0 for s_ in ast.walk(fn)) or \
         any(isinstance(c, ast.Compare) and "len(" in norm(c.left) and any(isinstance(k, ast.Constant) and k.value == 1 for k in c.comparators) for c in ast.walk(fn))
+    if single and not (loops_all or combined):
+        # the caller may hand over a table it has already combined: every call site of to_ipc in the package, or the function whose
+        # result is passed to it, applies combine_chunks()
+        sites = [(mm, c) for mm in prog.modules.values() for f_ in mm.functions.values() for c in ast.walk(f_)
+                 if isinstance(c, ast.Call) and norm(c.func).split(".")[-1] == "to_ipc" and c.args]
+
+        def arg_combined(mm, c):
+            a0 = c.args[0]
+            if "combine_chunks" in norm(a0):
+                return True
+            if isinstance(a0, ast.Call) and isinstance(a0.func, ast.Name) and a0.func.id in m.functions:
+                return any(isinstance(r_, ast.Return) and r_.value is not None and "combine_chunks" in norm(r_.value) for r_ in ast.walk(m.functions[a0.func.id]))
+            return False
+        combined = bool(sites) and all(arg_combined(mm, c) for mm, c in sites)
     ok = loops_all or combined or not single
     ctx.ob("C17.j", "to_ipc serialises every chunk of the result (writes all batches, or combines them first)", ok, m.loc(fn))
     if not ok:
